@@ -116,6 +116,14 @@ def replay(pid, path):
     with open(path) as f:
         d = json.load(f)
     cex = d.get("cex") or {}
+    if cex.get("mode") == "history":
+        from ..props import hist_probe
+
+        if hist_probe.replay(cex["prim"]):
+            print("VIOLATION property=%s replay=%s" % (pid, path))
+            return 1
+        print("does not reproduce on the current tree")
+        return 0
     if cex.get("mode") != "crosshair":
         return None
     viol, info = chrun.replay(cex["module"], cex["func"], cex["args"])
